@@ -140,6 +140,15 @@ def _run(args):
     if kind in ("rsp", "rsp_col", "hybrid") and cfg.get("solver") == "qr":
         for mod, oq in qr_mods:
             mod.qr_qua = make_qr(oq)
+    if cfg.get("warm"):
+        # call history: the same object has just solved a NEARBY problem of the same shape
+        rngw = np.random.default_rng(seed + 4242)
+        with contextlib.redirect_stdout(io.StringIO()):
+            np.random.seed(seed + 1)
+            call(q_from_float(A + 0.02 * ofro(A) / math.sqrt(m * n * 4) * rngw.standard_normal(A.shape)))
+        for k_ in micro:
+            micro[k_] = 0              # the observation counters describe the measured call only
+        calls.update(spd=0, qr=0)
     np.random.seed(seed)
     try:
         with Recorder() as rec, contextlib.redirect_stdout(io.StringIO()):
@@ -216,6 +225,10 @@ def run(ctx, replay=None):
             ("rsp", {"block": 1, "solver": "spd", "max_iter": 400, "test": 1}),
             ("hybrid", {"block": 2, "p": 4, "T": 3, "solver": "qr", "max_iter": 120}),
             ("cgne", {"max_iter": 500}),
+            # reused objects: the measured call follows a call on a nearby matrix of the same shape
+            ("hybrid", {"block": 2, "p": 4, "T": 3, "solver": "qr", "max_iter": 120, "warm": True}),
+            ("rsp", {"block": 2, "solver": "qr", "max_iter": 300, "warm": True}),
+            ("cgne", {"max_iter": 500, "warm": True}),
             ("cgne", {"max_iter": 120, "prec": "n", "pseed": 3}),       # randomized preconditioner of full rank n
             # fault sequences: the CG micro-solver reports failure every 2nd call (Newton-Schulz fallback path),
             # the thin QR raises every 3rd call (the step is skipped)
